@@ -193,6 +193,13 @@ def audit_axioms(pid: str, modules: List[str], theorems: List[str]) -> Tuple[Dic
     return res, log
 
 
+def leanchecker(modules: List[str], timeout: int = 3000) -> Tuple[bool, str]:
+    """Lean's independent re-checker of compiled .olean files (thorough tier)."""
+    with _Lock():
+        p = subprocess.run(["lake", "env", "leanchecker"] + modules, cwd=LEAN, capture_output=True, text=True, timeout=timeout)
+    return p.returncode == 0, p.stdout + p.stderr
+
+
 class Driver:
     """A compiled model driver (`lean_exe`): JSON lines in, JSON lines out."""
 
